@@ -536,6 +536,11 @@ def check_c16_expr(case):
 def _run_case(arg):
     fn_name, case = arg
     try:
+        if "." in fn_name:
+            import importlib
+
+            mod, f = fn_name.rsplit(".", 1)
+            return getattr(importlib.import_module(mod), f)(case)
         return globals()[fn_name](case)
     except Exception:
         import traceback
@@ -553,3 +558,71 @@ def run_cases(fn_name, cases, seed=0, nproc=None):
     ctx = mp.get_context("spawn")
     with ctx.Pool(nproc) as pool:
         return list(pool.imap_unordered(_run_case, args, chunksize=8))
+
+
+# --------------------------------------------------------------------------- C20
+def _observe(wf, schedule):
+    """Conduct wf under a schedule (list of statuses consumed FIFO, default succeeded)."""
+    obs = {"inspect": None, "graph": None, "offers": [], "contexts": None, "output": None, "status": None,
+           "errors": None, "exc": None}
+    try:
+        spec = native_specs.WorkflowSpec(copy.deepcopy(wf))
+        obs["inspect"] = spec.inspect()
+        if obs["inspect"]:
+            return obs
+        c = conducting.WorkflowConductor(spec)
+        obs["graph"] = c.graph.serialize()
+        c.request_workflow_status(st.RUNNING)
+        sched = list(schedule)
+        infl = []
+        for _ in range(50):
+            for t in c.get_next_tasks():
+                uctx = {k: v for k, v in t["ctx"].items() if not k.startswith("__")}
+                obs["offers"].append({"id": t["id"], "route": t["route"], "actions": copy.deepcopy(t["actions"]),
+                                      "ctx": uctx, "delay": t.get("delay"), "items_count": t.get("items_count")})
+                if "items_count" in t:
+                    if t["items_count"] == 0:
+                        c.update_task_state(t["id"], t["route"], events.ActionExecutionEvent(st.RUNNING))
+                        c.update_task_state(t["id"], t["route"], events.ActionExecutionEvent(st.SUCCEEDED, result=[]))
+                    for a in t["actions"]:
+                        c.update_task_state(t["id"], t["route"],
+                                            events.TaskItemActionExecutionEvent(a["item_id"], st.RUNNING))
+                        infl.append((t["id"], t["route"], a["item_id"], t["items_count"]))
+                else:
+                    c.update_task_state(t["id"], t["route"], events.ActionExecutionEvent(st.RUNNING))
+                    infl.append((t["id"], t["route"], None, None))
+            if not infl:
+                break
+            tid, r, item, n = infl.pop(0)
+            stt = sched.pop(0) if sched else st.SUCCEEDED
+            if item is None:
+                c.update_task_state(tid, r, events.ActionExecutionEvent(stt, result="r-" + tid))
+            else:
+                acc = ["r%d" % i for i in range(n)]
+                c.update_task_state(tid, r, events.TaskItemActionExecutionEvent(item, stt, result="r%d" % item,
+                                                                               accumulated_result=acc))
+        if c.get_workflow_status() in st.COMPLETED_STATUSES:
+            c.render_workflow_output()
+        obs["contexts"] = copy.deepcopy(c.workflow_state.contexts)
+        obs["output"] = c.get_workflow_output()
+        obs["status"] = c.get_workflow_status()
+        obs["errors"] = copy.deepcopy(c.errors)
+    except Exception as ex:
+        obs["exc"] = "%s: %s" % (type(ex).__name__, ex)
+    return obs
+
+
+def check_c20(case):
+    out = []
+    for sched in ([], [st.FAILED], [st.SUCCEEDED, st.FAILED]):
+        a = _observe(case["short"], sched)
+        b = _observe(case["long"], sched)
+        for k in ("exc", "inspect", "graph", "offers", "contexts", "output", "status", "errors"):
+            if not strict_eq_unordered(a[k], b[k]) if k in ("offers", "contexts", "output") else a[k] != b[k]:
+                out.append({"property": "C20", "kind": "shorthand_differs_from_long_form",
+                            "sig": {"position": case["name"].split("-")[0], "aspect": k},
+                            "detail": {"short": a[k], "long": b[k], "schedule": sched}, "case": case})
+                break
+        if out:
+            break
+    return {"violations": out}
